@@ -14,9 +14,18 @@ Record xout : Type := mkX {
   x_ref : option string       (* prov:ref *)
 }.
 
+(* the three inline collections of serialize_bundle come from the generated tables
+   (xml_typed_attrs, xml_untyped_attrs, xml_always_check): the model follows the source *)
 Definition is_tlv (a : qname) : bool :=          (* attr in [PROV_TYPE, PROV_LOCATION, PROV_VALUE] *)
-  is_prov_name "type" a || is_prov_name "location" a || is_prov_name "value" a.
-Definition is_time_or_label (a : qname) : bool := is_prov_name "time" a || is_prov_name "label" a.
+  existsb (fun l => is_prov_name l a) xml_typed_attrs.
+Definition is_time_or_label (a : qname) : bool := (* attr in [PROV_ATTR_TIME, PROV_LABEL] *)
+  existsb (fun l => is_prov_name l a) xml_untyped_attrs.
+Definition always_of (v : value) : bool :=        (* type(value) in ALWAYS_CHECK *)
+  let has n := existsb (String.eqb n) xml_always_check in
+  match v with
+  | VBool _ => has "bool" | VTime _ => has "datetime" | VFloat _ _ _ => has "float" | VInt _ => has "int"
+  | VId _ => has "identifier" | _ => false
+  end.
 
 Definition py_bool_str (b : bool) : string := if b then "True" else "False".
 
@@ -49,7 +58,7 @@ Definition xml_emit (ft : bool) (a : qname) (v : value) : xout :=
     | other => (None, None, value_str other)
     end in
   (* second stage: inferred xsi:type *)
-  let always := match v with VBool _ | VTime _ | VFloat _ _ _ | VInt _ | VId _ => true | _ => false end in
+  let always := always_of v in
   let cond := (ft || always || is_tlv a)
               && match ty0 with None => true | Some _ => false end
               && negb (starts_with "prov:" (match v with VLit _ _ _ => "<Literal" | other => value_str other end))
